@@ -81,6 +81,16 @@ func runAE(p *Prog) map[string]*aeEcoResult {
 			for id, is := range res.loopIssues {
 				fmt.Fprintf(os.Stderr, "   loopissue %s: %.300s\n", shortLoopID(id), is[0])
 			}
+			if os.Getenv("GVDEBUG") == "terms" {
+				var tk []string
+				for k, ti := range c.terms {
+					tk = append(tk, fmt.Sprintf("%s:%d pool=%v", k, ti.kind, c.pools[k]))
+				}
+				sort.Strings(tk)
+				for _, k := range tk {
+					fmt.Fprintf(os.Stderr, "   term %s\n", k)
+				}
+			}
 			seenLaw := map[string]bool{}
 			for _, f := range res.findings {
 				if seenLaw[f.law] {
